@@ -3,7 +3,14 @@
    Modelled code (src/aiu_trace_analyzer/pipeline/cmpt_collection.py, as it is today):
      * QueueingCounterContext.update_queues   -> [update_queues]   (ready / mid / post partition of the
                                                  breakpoint list, the three insertion rules, the
-                                                 special case of an empty queue)
+                                                 special case of an empty queue; the mode
+                                                 `self.sorted_input`: True = breakpoints before s are
+                                                 final and emitted at once, False = "hold": nothing is
+                                                 emitted before drain, the stored list keeps them)
+     * QueueingCounterContext.__init__        -> the first argument [si] of [update_queues] /
+                                                 [create_counter] / [step] / [feed] / [run_stage]
+                                                 (sorted_input, default True; acelyzer registers the stage
+                                                 with sorted_input = not args.skip_mpsync, i.e. -M -> false)
      * QueueingCounterContext.create_counter  -> [create_counter]  (per-pid dict of queues, interval
                                                  [ts, ts+dur), emits the "ready" breakpoints)
      * QueueingCounterContext.make_events     -> [OCnt] + [out_val] (name "ConcurrentPreps",
@@ -49,13 +56,16 @@ Definition new_list (last_ready : Z) (mid post : list bp) (s e : Q) : list bp :=
             end in
   n1 ++ bump mid ++ n3 ++ post.
 
-(* update_queues(s, e, qid) on the queue [q] of that qid: (ready_list, new_list) *)
-Definition update_queues (s e : Q) (q : list bp) : list bp * list bp :=
+(* update_queues(s, e, qid) on the queue [q] of that qid, context built with sorted_input = si:
+   (ready_list, new_list), or, `if not self.sorted_input`, ([], ready_list + new_list); the early return
+   for an empty queue is the same in both modes *)
+Definition update_queues (si : bool) (s e : Q) (q : list bp) : list bp * list bp :=
   match q with
   | [] => ([], [(s, 1); (e, 0)])
   | _ =>
       let ready := filter (is_ready s) q in
-      (ready, new_list (lastc 0 ready) (filter (is_mid s e) q) (filter (is_post e) q) s e)
+      let nl := new_list (lastc 0 ready) (filter (is_mid s e) q) (filter (is_post e) q) s e in
+      if si then (ready, nl) else ([], ready ++ nl)
   end.
 
 (* ------------------------------------------------------------------ events *)
@@ -144,44 +154,45 @@ Definition q_touch (p : Z) (qs : queues) : queues :=
 
 (* create_counter: a new pid gets its (empty) queue first; an interval with end <= start is never in
    flight and changes nothing else (guard added by the fix for the zero-duration defect) *)
-Definition create_counter (qs : queues) (p : Z) (s e : Q) : queues * list out :=
+Definition create_counter (si : bool) (qs : queues) (p : Z) (s e : Q) : queues * list out :=
   let qs0 := q_touch p qs in
   if Qle_b e s then (qs0, [])
   else
-    let '(ready, nq) := update_queues s e (qof p qs0) in
+    let '(ready, nq) := update_queues si s e (qof p qs0) in
     (q_set p nq qs0, cnts p ready).
 
 (* drain(): popitem() takes the most recently inserted pid first *)
 Definition drain (qs : queues) : list out :=
   flat_map (fun kv => cnts (fst kv) (snd kv)) (rev qs).
 
-(* queueing_counter(event, ctx, {"keep_prep": keep}) *)
-Definition step (keep : bool) (qs : queues) (e : ev) : res (queues * list out) :=
+(* queueing_counter(event, ctx, {"keep_prep": keep}), ctx = QueueingCounterContext(sorted_input = si) *)
+Definition step (si keep : bool) (qs : queues) (e : ev) : res (queues * list out) :=
   match classify e with
   | Fail t => Fail t
   | Ok None => Ok (qs, [OPass e])
   | Ok (Some (s, e')) =>
-      let '(qs', cs) := create_counter qs (e_pid e) s e' in
+      let '(qs', cs) := create_counter si qs (e_pid e) s e' in
       Ok (qs', if keep then OPass e :: cs else cs)
   end.
 
-Fixpoint feed (keep : bool) (qs : queues) (evs : list ev) : res (queues * list (list out)) :=
+Fixpoint feed (si keep : bool) (qs : queues) (evs : list ev) : res (queues * list (list out)) :=
   match evs with
   | [] => Ok (qs, [])
   | e :: r =>
-      match step keep qs e with
+      match step si keep qs e with
       | Fail t => Fail t
       | Ok (qs1, o) =>
-          match feed keep qs1 r with
+          match feed si keep qs1 r with
           | Fail t => Fail t
           | Ok (qs2, os) => Ok (qs2, o :: os)
           end
       end
   end.
 
-(* the whole life of the stage: every event through the callback (fresh context), then drain() *)
-Definition run_stage (keep : bool) (evs : list ev) : res (list (list out) * list out) :=
-  match feed keep [] evs with
+(* the whole life of the stage: every event through the callback (fresh context built with
+   sorted_input = si), then drain() *)
+Definition run_stage (si keep : bool) (evs : list ev) : res (list (list out) * list out) :=
+  match feed si keep [] evs with
   | Fail t => Fail t
   | Ok (qs, os) => Ok (os, drain qs)
   end.
@@ -214,14 +225,14 @@ Definition den (base : Z) (q : list bp) (t : Q) : Z := lastc base (upto t q).
 
 (* one queue fed with a list of intervals: (everything emitted by the callbacks, final queue);
    intervals with end <= start are skipped by create_counter's guard *)
-Fixpoint stream_q (q : list bp) (ivs : list (Q * Q)) : list bp * list bp :=
+Fixpoint stream_q (si : bool) (q : list bp) (ivs : list (Q * Q)) : list bp * list bp :=
   match ivs with
   | [] => ([], q)
   | (s, e) :: r =>
-      if Qle_b e s then stream_q q r
+      if Qle_b e s then stream_q si q r
       else
-        let '(rd, q1) := update_queues s e q in
-        let '(em, q2) := stream_q q1 r in
+        let '(rd, q1) := update_queues si s e q in
+        let '(em, q2) := stream_q si q1 r in
         (rd ++ em, q2)
   end.
 
@@ -236,15 +247,16 @@ Definition out_val (o : out) : val :=
   end.
 Definition bp_val (x : bp) : val := VL [VQ (fst x); VZ (snd x)].
 
-Definition run_val (x : bool * list ev) : val :=
-  match run_stage (fst x) (snd x) with
+(* ((sorted_input, keep_prep), events) *)
+Definition run_val (x : (bool * bool) * list ev) : val :=
+  match run_stage (fst (fst x)) (snd (fst x)) (snd x) with
   | Fail t => VE t
   | Ok (os, dr) => VL [VL (map (fun o => VL (map out_val o)) os); VL (map out_val dr)]
   end.
 
-(* update_queues alone, on an arbitrary (possibly ill-formed) stored list *)
-Definition uq_val (x : (Q * Q) * list bp) : val :=
-  let '(rd, nq) := update_queues (fst (fst x)) (snd (fst x)) (snd x) in
+(* update_queues alone, on an arbitrary (possibly ill-formed) stored list: ((sorted_input, (s, e)), list) *)
+Definition uq_val (x : (bool * (Q * Q)) * list bp) : val :=
+  let '(rd, nq) := update_queues (fst (fst x)) (fst (snd (fst x))) (snd (snd (fst x))) (snd x) in
   VL [VL (map bp_val rd); VL (map bp_val nq)].
 
 (* (true, name): the Prep test on a name; (false, _): the dialect entry the model stands for *)
@@ -264,5 +276,5 @@ Fixpoint touching (ivs : list (Q * Q)) : bool :=
   | [] => false
   | (s1, e1) :: r => existsb (fun iv => Qle_b s1 (fst iv) && Qle_b (fst iv) e1) r || touching r
   end.
-Definition nontrivial (c : (bool * list ev) * val) : bool :=
+Definition nontrivial (c : ((bool * bool) * list ev) * val) : bool :=
   existsb (fun e => touching (preps_of (e_pid e) (snd (fst c)))) (snd (fst c)).
